@@ -91,10 +91,9 @@ type world struct {
 	failed   *bool
 	valCtr   int
 	cnt      map[string]int
-	// emptyVals: whether this sequence generates empty (non-nil) values. On the
-	// CollectingDB base only a quarter of the sequences do, so that one defect
-	// class (direct Set of an empty value reads back as absent) cannot end most
-	// collecting sequences early.
+	// emptyVals: whether this sequence generates empty (non-nil) values.
+	// (Was restricted on the CollectingDB base while BatchCollector.set turned
+	// an empty value into nil; fixed upstream, now always on.)
 	emptyVals bool
 
 	sawShadowIter *bool
@@ -1015,7 +1014,7 @@ func newWorld(c *vf.Ctx, rng *rand.Rand, id string, baseKind int) *world {
 func runStack(c *vf.Ctx, i int, rng *rand.Rand, nops int) {
 	baseKind := i % 3
 	w := newWorld(c, rng, fmt.Sprintf("stack/%d", i), baseKind)
-	w.emptyVals = baseKind != bCollect || (i/3)%4 == 0
+	w.emptyVals = true
 	c.Count("base_"+baseNames[baseKind], 1)
 	// stack first (so base population can aim at the prefixes), then data
 	depth := 1 + rng.IntN(4)
